@@ -450,8 +450,9 @@ class ModelEnv(BaseEnv):
 
     def close(self):
         global CUR
-        CUR = None
-        _uninstall_model()
+        with hlib.NoTracing():
+            CUR = None
+            _uninstall_model()
 
 
 class RealRemoteFS:
@@ -649,5 +650,6 @@ def reset_process_state():
 
 
 def make_env():
-    reset_process_state()
-    return RealEnv() if hlib.MODE == "real" else ModelEnv()
+    with hlib.NoTracing():  # environment construction is set-up, not code under analysis
+        reset_process_state()
+        return RealEnv() if hlib.MODE == "real" else ModelEnv()
